@@ -299,8 +299,74 @@ Proof.
   destruct ((st =? 1) || (st =? 2))%Z; [rewrite for_each_touch|]; cbn; discriminate.
 Qed.
 
-Lemma mc_find_group_total mt served m : mc_find_group mt served m <> Panicked.
-Proof. unfold mc_find_group. destruct m, served; cbn; try discriminate. destruct (_ <? _)%Z; cbn; discriminate. Qed.
+(** DistanceCmp as written (guard with [||]) never indexes out of range; it agrees with the C20 model *)
+Lemma cmp_loop_p_val a : forall x y, length a = length x -> length a = length y -> exists z, cmp_loop_p a x y = Val z.
+Proof.
+  induction a as [|ai a IH]; intros x y Hx Hy; cbn; [eexists; reflexivity|].
+  destruct x as [|xi x]; [discriminate|]. destruct y as [|yi y]; [discriminate|].
+  destruct (N.lxor xi ai =? N.lxor yi ai); [apply IH; cbn in *; congruence|].
+  destruct (_ <? _); eexists; reflexivity.
+Qed.
+
+Lemma distance_cmp_p_val a x y : exists r, distance_cmp_p a x y = Val r.
+Proof.
+  unfold distance_cmp_p, distance_cmp_g, len_guard_or.
+  destruct (Nat.eqb (length a) (length x)) eqn:Ex; cbn; [|eexists; reflexivity].
+  destruct (Nat.eqb (length a) (length y)) eqn:Ey; cbn; [|eexists; reflexivity].
+  apply Nat.eqb_eq in Ex, Ey.
+  destruct (cmp_loop_p_val a x y Ex Ey) as [z ->]; cbn. eexists; reflexivity.
+Qed.
+
+Lemma cmp_loop_p_c20 a : forall x y, length a = length x -> length a = length y ->
+  cmp_loop_p a x y = Val (P20.cmp_loop a x y).
+Proof.
+  induction a as [|ai a IH]; intros x y Hx Hy; cbn; [reflexivity|].
+  destruct x as [|xi x]; [discriminate|]. destruct y as [|yi y]; [discriminate|].
+  destruct (N.lxor xi ai =? N.lxor yi ai); [apply IH; cbn in *; congruence|].
+  destruct (_ <? _); reflexivity.
+Qed.
+
+Lemma distance_cmp_p_c20 a x y : distance_cmp_p a x y = Val (P20.distance_cmp a x y).
+Proof.
+  unfold distance_cmp_p, distance_cmp_g, len_guard_or, P20.distance_cmp.
+  destruct (Nat.eqb (length a) (length x)) eqn:Ex; cbn; [|reflexivity].
+  destruct (Nat.eqb (length a) (length y)) eqn:Ey; cbn; [|reflexivity].
+  apply Nat.eqb_eq in Ex, Ey. rewrite (cmp_loop_p_c20 a x y Ex Ey). reflexivity.
+Qed.
+
+Lemma closer_p_val a x y : exists b, closer_p a x y = Val b.
+Proof. unfold closer_p. destruct (distance_cmp_p_val x a y) as [r ->]; cbn. eexists; reflexivity. Qed.
+
+Lemma closer_scan_val gid groups : forall closer, exists c, closer_scan gid closer groups = Val c.
+Proof.
+  induction groups as [|g r IH]; intros closer; cbn; [eexists; reflexivity|].
+  destruct closer as [|c0 cl]; [apply IH|].
+  destruct (closer_p_val g gid (c0 :: cl)) as [b ->]; cbn. apply IH.
+Qed.
+
+Lemma forward_nodes_val gid known joined : forward_nodes gid known joined = Val tt.
+Proof.
+  unfold forward_nodes. destruct (closer_scan_val gid known []) as [k ->]; cbn.
+  destruct (closer_scan_val gid joined []) as [j ->]; reflexivity.
+Qed.
+
+(** the seeded change C37-1 (guard with [&&]): a 1-byte gid next to a 32-byte one panics *)
+Lemma distance_cmp_and_guard_panics :
+  distance_cmp_g len_guard_and [7; 1] [7] [7; 2] = Pan.
+Proof. reflexivity. Qed.
+
+Lemma mc_find_group_total mt served known joined m : mc_find_group mt served known joined m <> Panicked.
+Proof.
+  unfold mc_find_group. destruct m as [req|], served; cbn; try discriminate.
+  destruct (_ <? _)%Z; cbn; [rewrite forward_nodes_val|]; cbn; discriminate.
+Qed.
+
+Lemma mc_multicast_total self origin gid has known joined m : mc_multicast self origin gid has known joined m <> Panicked.
+Proof.
+  unfold mc_multicast. destruct m; cbn; [|discriminate].
+  destruct (bytes_eqb origin self); cbn; [discriminate|].
+  destruct has; [|rewrite forward_nodes_val]; cbn; discriminate.
+Qed.
 
 Lemma mc_message_total j s m sf : mc_message true j s m sf <> Panicked.
 Proof. unfold mc_message. destruct m as [g|], j, s, sf; cbn; try discriminate; destruct (gm_type g =? 1)%Z; cbn; discriminate. Qed.
